@@ -154,6 +154,16 @@ def job(payload):
             p = os.path.join(common.RUN, "forests", "c05-%d-%d.o" % (seed, i))
             dwgen.write(f, p)
             paths.append((p, True))
+    elif kind == "archive":
+        # an ar archive: one Dwarf value made of several modules (members whose units end in partial units, or are DIE-less, in the middle)
+        import subprocess
+        os.makedirs(os.path.join(common.RUN, "forests"), exist_ok=True)
+        p = os.path.join(common.RUN, "forests", "c05-%s.a" % "-".join(os.path.basename(m)[:8] for m in arg))
+        if os.path.exists(p):
+            os.unlink(p)
+        if subprocess.run(["ar", "rcs", p] + list(arg), stdout=subprocess.PIPE, stderr=subprocess.PIPE).returncode == 0:
+            paths = [(p, True)]
+            out["archives"] = 1
     else:
         paths = [(arg, False)]
     for p, tmp in paths:
@@ -186,6 +196,13 @@ def run(chk):
     corpus = dwcorpus.build(quick)
     sel = corpus if not quick else corpus[::6]
     jobs += [("file", p) for p, linked in sel]
+    tdir = os.path.join(common.REPO, "tests")
+    members = [os.path.join(tdir, f) for f in ("dwz-partial4-1.o", "nullptr.o", "typedef.o", "enum.o", "imported-AT_decl_file.o") if os.path.exists(os.path.join(tdir, f))]
+    import shutil
+    if shutil.which("ar") and len(members) >= 3:
+        rnga = chk.rng("archives")
+        combos = [members[:2], members[1::-1], [members[2], members[0], members[3]]] + [rnga.sample(members, rnga.randint(2, 4)) for _ in range(3 if quick else 40)]
+        jobs += [("archive", c) for c in combos]
     nf = 160 if quick else 3200
     jobs += [("forest", (chk.seed * 49979687 + i, 8)) for i in range(nf // 8)]
     zcheck.consume(chk, pool.map(job, jobs), tot, ctx, samples, "C05")
@@ -197,7 +214,7 @@ def run(chk):
                 "distinct_nontrivial = (file, mode) pairs",
         "child_parent_links_checked": tot.get("child_links", 0), "per_unit_and_per_DIE_laws": tot.get("laws", 0),
         "in_language_law_queries": tot.get("inlang", 0), "identities_reached_more_than_once_by_the_same_route": tot.get("same_route_twice", 0),
-        "generated_forests": nf, "sample_files": len(c02.sample_files()), "compiled_objects": len(sel),
+        "ar_archives_of_sample_objects": tot.get("archives", 0), "generated_forests": nf, "sample_files": len(c02.sample_files()), "compiled_objects": len(sel),
         "samples": samples[:5],
     })
     if tot.get("dies", 0) < 5000:
